@@ -195,6 +195,13 @@ Sch(id) ==
     [] id \in 200..219 -> LET t == TypeSeq[((id - 200) \div 4) + 1] j == (id - 200) % 4 IN
                           [m1 |-> Ms([a |-> t], (IF j \in {1, 3} THEN {"a"} ELSE {}) \cup (IF j \in {2, 3} THEN {"host"} ELSE {}))]
 
+    \* wide schemas: more than 12 columns, with a tag shadowing a field of the same name among them
+    [] id = 300 -> [m1 |-> Ms([n \in ToSet(WideNames) |-> "integer"] @@ [a |-> "float"], {"a", "host", "w05"})]
+    [] id = 301 -> [m1 |-> Ms([a |-> "float", b |-> "string"], ToSet(WideNames) \cup {"a", "b", "host"})]
+    [] id = 302 -> [m1 |-> Ms([n \in {"w01", "w02", "w03", "w04", "w05", "w06"} |-> "float"] @@ [a |-> "integer"], {"w03", "host"}),
+                    m2 |-> Ms([n \in {"w04", "w05", "w06", "w07", "w08", "w09", "w10"} |-> "integer"] @@ [c |-> "boolean"], {"w08", "a", "region"})]
+    [] id = 303 -> [m1 |-> Ms([n \in ToSet(WideNames) |-> "unsigned"] @@ [x |-> "boolean", host |-> "string"], {"host", "w12", "x", "region"})]
+
 \* ------------------------------------------------------------------ the machine
 NoCase == [k |-> "none"]
 MkCase(c, sid) ==
